@@ -69,8 +69,25 @@ def same_state(fsm, c):
 
 
 def guard_implies_n1(c):
-    s = c.path.st.pc.sets.get(c.atoms["n"])
-    return s is not None and s == IntSet.of(1)
+    """the cell covers only unfragmented sentences: fragment count 1 and some fragment number of at
+    least 1 that its guard admits (`0 of 1` is handled - by the crate and by the reference machine
+    alike - as a fragment that has more to come; whether that is right is the point-wise
+    comparison's business).  The linear facts of the guard are checked against each candidate
+    fragment number, so a cell made infeasible by `k < n` together with n = 1 is not mistaken
+    for an unfragmented one."""
+    st = c.path.st
+    s = st.pc.sets.get(c.atoms["n"])
+    if s is None or s != IntSet.of(1):
+        return False
+    ka = c.atoms["k"]
+    ks = st.aset(ka).intersect(IntSet.range(1, 255))
+    for v in ks.values():
+        s2 = st.copy()
+        s2.pc.sets = dict(s2.pc.sets)
+        s2.pc.sets[ka] = IntSet.of(v)
+        if all(s2.lin_range(f).min() <= 0 for f in s2.pc.facts):
+            return True
+    return False
 
 
 def walk_type(f, t, bad, seen, path="AisParser"):
